@@ -528,7 +528,7 @@ class IDView(Mapping, Set):
         newview._bi_id_attr = view._bi_id_attr
         all_ids = set(view._id_dict)
         if bunch is None:
-            newview._ids = all_ids
+            newview._ids = view._id_dict
         else:
             bunch = set(bunch)
             wrong = bunch - all_ids
